@@ -357,6 +357,7 @@ void generate(uint64_t seed, const Str& profile, Desc& d, bool exceptions) {
     d.p["use_ci"] = cfg.chance(1, 4);
     if (f.junit) { d.p["output"] = 3; if (cfg.chance(1, 2)) d.sp["package"] = pickName(cfg, f, "pk", 0, false); if (d.pi("verbose") == 2) d.p["verbose"] = 1; }
     else if (f.teamcity || (f.procReal && cfg.chance(1, 4))) d.p["output"] = 4;      // (a quarter of the real separate-process runs report through TeamCity)
+    else if (f.leaks && !f.procReal && cfg.chance(1, 8)) d.p["output"] = 3;      // an output that allocates between the tests (JUnitTestOutput keeps a node per test): such a block belongs to no test
     else d.p["output"] = cfg.chance(1, 6) ? cfg.range(1, 2) : 0;
     if (f.procReal || f.procSyn) { d.p["separate"] = 1; d.p["synthetic"] = f.procSyn; if (cfg.chance(1, 3)) { static const int es[] = { 28 /*ENOSPC*/, 9 /*EBADF*/, 11 /*EAGAIN*/, 32 /*EPIPE*/, 10 /*ECHILD*/, 5 /*EIO*/ }; d.p["errno_noise"] = es[cfg.below(6)]; } }
     if (profile == "selection" && d.pi("output") == 0 && cfg.chance(1, 3)) d.p["via_api"] = 1;
